@@ -4,7 +4,7 @@ import RedisVerif.Model.SimKernel
 import RedisVerif.Model.SimHarness
 import RedisVerif.Model.SimTyped
 import RedisVerif.Model.SimMore
-import RedisVerif.Model.SimCluster
+import RedisVerif.Model.SimMulti
 import RedisVerif.Model.SimBuggify
 
 /-
@@ -251,7 +251,7 @@ def cmd (st : St) : P (St × String) := do
     let seed ← nat
     let ops ← nat
     let cfg ← restNats
-    match (((SimCluster.run h seed cfg).orElse (fun _ => SimTyped.run h seed ops cfg)).orElse (fun _ => SimMore.run h seed ops cfg)).orElse (fun _ => SimHarness.run h seed ops cfg) with
+    match (((SimMulti.run h seed cfg).orElse (fun _ => SimTyped.run h seed ops cfg)).orElse (fun _ => SimMore.run h seed ops cfg)).orElse (fun _ => SimHarness.run h seed ops cfg) with
     | some t => pure (st, t)
     | none => failure
   | "FC" =>
